@@ -248,6 +248,11 @@ static void coord_roundtrip(uint64_t idx, vp::Local& L) {
                 VP_CHECK(txt == want && txt.find(';') != std::string::npos, "coord-format", "as_string of Location(" << pt.a << "," << pt.b << ") = " << q(txt));
             }
             VP_CHECK(l.lon_without_check() == static_cast<double>(pt.a) / 10000000.0 && l.lat_without_check() == static_cast<double>(pt.b) / 10000000.0, "loc-value", "lon/lat_without_check of Location(" << pt.a << "," << pt.b << ")");
+            {
+                // through doubles and back: the nearest fixed-point value of x / 10^7 is x
+                const osmium::Location viad{l.lon_without_check(), l.lat_without_check()};
+                VP_CHECK(viad.x() == pt.a && viad.y() == pt.b, "loc-value", "Location(double, double) of " << pt.a << "/" << pt.b << " * 1e-7 gives " << viad.x() << "/" << viad.y());
+            }
             for (int64_t d : {-1LL, 0LL, 1LL}) {
                 for (const P& o : {P{static_cast<int32_t>(pt.a + d == X + d && pt.a + d >= -2147483648LL && pt.a + d <= 2147483647LL ? pt.a + d : pt.a), pt.b}, P{pt.a, static_cast<int32_t>(pt.b + d >= -2147483648LL && pt.b + d <= 2147483647LL ? pt.b + d : pt.b)}}) {
                     const osmium::Location m{o.a, o.b};
